@@ -177,6 +177,26 @@ fn node_with_range(n: &LinkedNode, r: &std::ops::Range<usize>) -> Option<bool> {
     None
 }
 
+fn kinds_to_range(n: &LinkedNode, r: &std::ops::Range<usize>, path: &mut Vec<typst_syntax::SyntaxKind>) -> bool {
+    path.push(n.kind());
+    if n.range() == *r {
+        // the deepest node with this range is what `find(span)` resolves to only if spans agree; any is fine here
+        for c in n.children() {
+            if c.range() == *r && kinds_to_range(&c, r, path) {
+                return true;
+            }
+        }
+        return true;
+    }
+    for c in n.children() {
+        if c.range().start <= r.start && c.range().end >= r.end && kinds_to_range(&c, r, path) {
+            return true;
+        }
+    }
+    path.pop();
+    false
+}
+
 pub fn check_range(src: &str, source: &Source, cfg: Cfg, s: usize, e: usize) -> Result<Option<(std::ops::Range<usize>, String)>, (String, String)> {
     let t = Typstyle::new(cfg.to_config());
     let r = std::panic::catch_unwind(std::panic::AssertUnwindSafe(|| t.format_source_range(source, s..e)));
@@ -209,7 +229,14 @@ pub fn check_range(src: &str, source: &Source, cfg: Cfg, s: usize, e: usize) -> 
             if !(rng.start <= ts && rng.end >= te) {
                 return Err(("cover".into(), format!("returned range {:?} does not cover the trimmed request {}..{}", rng, ts, te)));
             }
-            if !erroneous {
+            // known findings F13/F14/F25: Markup nodes (trimmed edges, unstripped blank lines) and anything
+            // inside list/enum/term items are formatted without their context; printer findings by shape
+            let mut path = vec![];
+            kinds_to_range(&root, &rng, &mut path);
+            let in_item = path.iter().any(|k| matches!(k, typst_syntax::SyntaxKind::ListItem | typst_syntax::SyntaxKind::EnumItem | typst_syntax::SyntaxKind::TermItem));
+            let inner_markup = path.last() == Some(&typst_syntax::SyntaxKind::Markup);
+            let shape = crate::shapes::excluded(source.root(), "C13").is_some();
+            if !erroneous && !in_item && !inner_markup && !shape {
                 let spliced = format!("{}{}{}", &src[..rng.start], text, &src[rng.end..]);
                 let s2 = obs::parse(&spliced);
                 if s2.root().erroneous() {
